@@ -20,6 +20,22 @@ CLAIMED = {
              'not yet in the history model; parameter mode only',
         technique='Coq proof (invariant over a fuelled evaluator, mutual inductive denotation) + differential histories via vm_compute',
         ref='DESIGN.md section 5, C01'),
+    'C18': dict(
+        category='proof',
+        text='Theorems about the evaluation machine: a successful run (first computation, retry after failure, forced '
+             'recomputation) leaves beside the result exactly the record of this run - task, the value repr of every '
+             'parameter including unpersisted ones, the key of every input task, config name, namespace, context name, the '
+             'records added during run in order - and a log with the messages of this run only, replacing whatever was there; '
+             'a failing run leaves an empty log, no new record and nothing in memory; result, record and log are three '
+             'distinct files; a request changes no file other than those of the task objects of the process (no cross-talk). '
+             'Tied to Task._init_run_info/_finish_run_info/Data.get_log_handler by differential histories with failing runs, '
+             'retries and forced recomputations within one process, reading run_info and log after each step.',
+        note='timestamps, user, version, class/module names and the framing log lines are abstracted; the model is the '
+             'repaired code (fix e89a171: handler detached when run fails); the raw-log check for duplicated lines and NUL '
+             'padding is done by the oracle',
+        technique='Coq proof (case analysis of the fuelled evaluator, path distinctness, store-preservation invariant) + '
+                  'differential histories via vm_compute',
+        ref='DESIGN.md section 5, C18'),
     'C02': dict(
         category='proof',
         text='Theorems that the key text (hence the location, C12) is invariant under: permuting parameter declarations, '
